@@ -22,7 +22,7 @@ RULE = ("Systematic part: the whole (class, year, month) domain - 8 built-in cla
         "its expiry. Every case is non-trivial (a distinct part of the "
         "domain).")
 ASSUMPTIONS = ["the oracle is the property's own wording of the exchange rules; exchange holidays are not modelled by the property"]
-REQUIRED_CATS = ["explicit-contracts:list", "explicit-contracts:ndarray", "explicit-contracts:series-permuted-index",
+REQUIRED_CATS = ["float-arguments-refused-then-retried", "explicit-contracts:list", "explicit-contracts:ndarray", "explicit-contracts:series-permuted-index",
                  "explicit-contracts:series-filtered"]
 REQUIRED = ["C19:survives-copy", "C19:expiry-rule", "C19:cutoff-before-expiry", "C19:symbol", "C19:chain-ordered", "C19:chain-unique-symbols",
             "C19:chain-events"]
@@ -66,6 +66,13 @@ def as_date(x):
 
 
 def check_contract(ctx, cls, y, m):
+    if ctx.rng.random() < 0.15:
+        # the first attempt comes with the year and month as FLOATS (a row of a DataFrame that also has a float
+        # column): whether it is refused or not, the contract built next from ints is the one specified
+        try:
+            cls(float(y), float(m))
+        except Exception:
+            ctx.cat("float-arguments-refused-then-retried")
     c = cls(y, m)
     exp, ltd = c.expiry, c.last_trading_date
     AbstractContract.now = ctx.rng.choice([datetime.min, datetime(2150, 1, 1)])
